@@ -78,18 +78,25 @@ def blur_case(draw, tier, mega=False):
     if kind != "int_counts":
         img = img * draw(gen.scales())
     ptypes = draw(_param_types())
-    if draw(st.integers(0, 9)) == 0:
+    eight_bit = draw(st.integers(0, 5)) == 0
+    if eight_bit:
         # blur extents and oversampling read from 8-bit tables: integer-valued, same small numpy integer type
         ext = draw(st.sampled_from([60, 100, 120, 200, 250]))
         os_ = draw(st.integers(2, 5))
         t = draw(st.sampled_from(["uint8", "int8"]))
+        if draw(st.booleans()):
+            # products just beyond 256: in 8 bits they wrap to 0 .. 4 samples, a blur that is plainly not the (flat)
+            # one of 256+ samples even on a small image
+            ext, os_ = draw(st.sampled_from([(52, 5), (86, 3), (64, 4), (129, 2), (65, 4), (87, 3)]))
+            t = "uint8"
         ptypes = {"ext_type": t, "os_type": t}
+        fn = draw(st.sampled_from(["jitter", "jitter", "smear"]))          # (pixel takes no extent)
     return {"layout": draw(gen.layouts()), "img": img, "kind": kind, "fn": fn, "oversample": os_, "extent": ext,
             # numeric types of the scalar parameters (numpy integer / float scalars, 0-d arrays)
             **ptypes,
             "angle": draw(st.sampled_from([0, 90, 45.0, 180, 270, 30.0])) if draw(st.booleans()) else draw(gen.finite(0.0, 360.0)),
             "pixelscale": draw(gen.pos_log(1e-6, 1e-4)), "roll": [draw(st.integers(-30, 30)), draw(st.integers(-30, 30))],
-            "phys": draw(st.booleans()), "positional": draw(st.booleans())}
+            "phys": draw(st.booleans()) and not eight_bit, "positional": draw(st.booleans())}
 
 
 def _eight_bit_overflow(case):
